@@ -70,7 +70,8 @@ var c09Table = []c09Row{
 	{fn: "pkg/collection/bytes.JoinSize", kind: "slice", desc: "", reason: algo + "i advances by what copy() wrote, so i <= len(b)"},
 	{fn: "pkg/collection/bytes.JoinSize", kind: "make", desc: "make with length p0", reason: "every caller passes a sum of len()s and a prefix length fixed at construction (diffdb.getKey, batchdb.prefixedKey, framework.getTreeKey): non-negative and bounded by existing data"},
 	{fn: "pkg/blockchain.(*DataAccess).GetBlocksBetweenHeight", kind: "make", desc: "((p2 - p1) + 1)",
-		reason:      "uint32 arithmetic; the reachable caller (getBlocksFromId handler) passes from = h+1 and to = min(h+103, tip) with h on the node's own chain, so 0 <= to-from+1 <= 103",
+		reason:      "uint32 arithmetic; the reachable caller (getBlocksFromId handler) passes from = h+1 and to = min(h+103, tip): at most 103 blocks. h is read before the tip, so a revert in between can leave to < from (the difference would wrap to ~2^32): the function itself must return early for to < from (required fact, F52)",
+		facts:       []string{"p2 >= p1"},
 		callerFacts: []string{"GetBlockHeader("}},
 	// ---- staged store
 	{fn: "pkg/db/diffdb.(*Database).Iterate", kind: "slice", desc: "[p0.prefixLength:_]", reason: "keys come back from a scan under getKey(prefix): they start with the view prefix, whose length is prefixLength"},
